@@ -492,11 +492,31 @@ fn expand_one_env(sh: &Shell, token: &str) -> Option<(String, String)> {
             result.push_str(format!("{}", val).as_str());
         }
     } else if let Ok(val) = env::var(&key) {
-        result.push_str(&val);
+        result.push_str(&protect_value(&val));
     } else if let Some(val) = sh.get_env(&key) {
-        result.push_str(&val);
+        result.push_str(&protect_value(&val));
     }
     Some((result, tail))
+}
+
+// A value is data: a `$(...)` or backquote pair in it must not be run by the
+// command substitution pass that follows. The two characters that start a
+// substitution are replaced by private-use placeholders while the passes run
+// and restored at the end of do_expansion().
+const PROTECTED_DOLLAR: char = '\u{e000}';
+const PROTECTED_BACKQUOTE: char = '\u{e001}';
+
+fn protect_value(val: &str) -> String {
+    val.replace("$(", &format!("{}(", PROTECTED_DOLLAR))
+        .replace('`', &PROTECTED_BACKQUOTE.to_string())
+}
+
+fn restore_protected(tokens: &mut types::Tokens) {
+    for t in tokens.iter_mut() {
+        if t.1.contains(PROTECTED_DOLLAR) || t.1.contains(PROTECTED_BACKQUOTE) {
+            t.1 = t.1.replace(PROTECTED_DOLLAR, "$").replace(PROTECTED_BACKQUOTE, "`");
+        }
+    }
 }
 
 fn need_expand_brace(line: &str) -> bool {
@@ -1034,6 +1054,7 @@ pub fn do_expansion(sh: &mut Shell, tokens: &mut types::Tokens) {
     expand_env(sh, tokens);
     expand_glob(tokens);
     do_command_substitution(sh, tokens);
+    restore_protected(tokens);
 }
 
 pub fn trim_multiline_prompts(line: &str) -> String {
